@@ -229,7 +229,7 @@ def main(argv=None):
     for v in S.VERSIONS:
         lib = hl7apy.load_library(v)
         ec = S.default_ec(v)
-        corpus = ['QPD|a||q||beyond|b'] if v == '2.5' else []     # witness of the recorded finding F14 runs first
+        corpus = ['QPD|a||q||beyond|b', 'Z0X|a'] if v == '2.5' else []     # witnesses of the recorded findings F14, F27 run first
         for it in range(nlines + len(corpus)):
             text = corpus[it] if it < len(corpus) else line(rng, lib, ec, messy=rng.random() < .3)
             if it >= len(corpus) and rng.random() < .25:
@@ -265,7 +265,9 @@ def main(argv=None):
                 if bad:
                     run.fail('strict-accepted-draws-validator-error', 'an element accepted by STRICT construction draws a '
                              'validator error other than a missing required child', version=v, text=text, errors=bad[:4],
-                             open_ended_beyond_table=beyond, cls='Segment')
+                             open_ended_beyond_table=beyond, cls='Segment',
+                             z_name_outside_field_regex=(name.startswith('Z') and __import__('re').match(
+                                 r'^z[a-z1-9]{2}$', name, __import__('re').I) is None))
     strict_api_refusals(run, rng, dist)
     run.log('segments: %s, %d failures' % (dist, len(run.failures)))
     # ---- messages
